@@ -5,6 +5,7 @@ package c07
 // visitors.Save), each in a "fresh process" (hu.ResetState) inside a scratch directory.
 
 import (
+	"time"
 	"fmt"
 	"os"
 	"path/filepath"
@@ -28,7 +29,11 @@ func scratch() string {
 		for _, d := range old {
 			pid := d[strings.LastIndex(d, "-")+1:]
 			if _, err := os.Stat("/proc/" + pid); err != nil {
-				os.RemoveAll(d)
+				// (wp-c07c) only directories that are also old: a run in another PID namespace does not see this
+				// process in its /proc and must not take the directory of a live run away
+				if fi, e2 := os.Stat(d); e2 == nil && time.Since(fi.ModTime()) > 2*time.Hour {
+					os.RemoveAll(d)
+				}
 			}
 		}
 		tmpRoot = filepath.Join(os.TempDir(), fmt.Sprintf("verif-c07-%d", os.Getpid()))
@@ -234,6 +239,8 @@ type rt struct {
 	memClass    string
 	mem         []byte
 	editApplied int
+	// follow-up wp-c07c: the ME partition tables after parsing, after ParseDir, and re-read from the saved bytes
+	meParsed, meLoaded, meSaved []meRec
 }
 
 func digLen(b []byte) string { return fmt.Sprintf("%016x:%d", core.FNV(b), len(b)) }
@@ -267,6 +274,7 @@ func roundTrip(in []byte, ed *edit) *rt {
 		return r
 	}
 	r.leafCount = leafBuffers(tree)
+	r.meParsed = meRecords(tree)
 	var idx uint64
 	r.exClass, r.detail = hu.Guard(func() error {
 		return (&visitors.Extract{BasePath: dir, DirPath: ".", Index: &idx}).Run(tree)
@@ -353,6 +361,7 @@ func roundTrip(in []byte, ed *edit) *rt {
 		return r
 	}
 	r.pdDigest = hu.Digest(loaded)
+	r.meLoaded = meRecords(loaded)
 	r.dsStage = "assemble"
 	r.dsClass, r.detail = hu.Guard(func() error { return (&visitors.Assemble{}).Run(loaded) })
 	if r.dsClass != "ok" {
@@ -362,6 +371,11 @@ func roundTrip(in []byte, ed *edit) *rt {
 	r.dsClass, r.detail, r.out = saveTo(loaded, filepath.Join(base, "out.rom"))
 	if r.dsClass == "ok" {
 		r.outDigest = hu.Digest(loaded)
+		if len(r.meLoaded) > 0 {
+			if t4, class4, _ := parseFresh(r.out); class4 == "ok" {
+				r.meSaved = meRecords(t4)
+			}
+		}
 	}
 	return r
 }
